@@ -767,7 +767,12 @@ class PurityWorld:
             else:
                 self.count("read_repeats_equal")
             self.probe("read_repeated:" + str(op.get("again")))
-        m["reads"][tag] = res
+        # keep a private copy: some reads hand out the estimator's own arrays, and a later
+        # read that rewrites them must not rewrite what an earlier read returned to us
+        try:
+            m["reads"][tag] = copy.deepcopy(res)
+        except Exception:  # noqa: BLE001
+            m["reads"][tag] = res
         if meth == "fit_transform":
             m["fits"].append({"args": op["args"], "ok": True, "env": op.get("env")})
         if meth == "fit_transform" and self.comparable(name, op["args"]):
